@@ -9,7 +9,7 @@ Oracle: TreeBuilder().feed(text); close() == generating term.  ref_sgml reads ev
 import itertools
 
 from vf import ref_sgml
-from vf.core import HarnessError, Tally, deviations
+from vf.core import vacuous, HarnessError, Tally, deviations
 
 LEVEL = "exploration"
 
@@ -199,18 +199,18 @@ def run(ctx):
     items = items[rot:] + items[:rot]
     tally = ctx.pmap(work, items, chunk=max(1, len(items) // (ctx.workers * 8)))
     if tally.counts.get("terms", 0) < 1000:
-        raise HarnessError("vacuous: fewer than 1000 terms enumerated")
+        vacuous(tally, "vacuous: fewer than 1000 terms enumerated")
     sample_term = ("A", [("B1", "a b"), ("C.D_E", [])])
     tally.sample({"term": sample_term, "text": ref_sgml.render(sample_term, {0: (True, False)}, [0, 2, 0, 0, 0, 3, 0, 0])})
     cov = {
-        "evaluations": tally.counts["evaluations"],
+        "evaluations": tally.counts.get("evaluations", 0),
         "distinct_nontrivial": tally.counts.get("nontrivial", 0),
         "rule": "every ordered tree with <=N nodes over tags {A,B1,C.D_E}, leaves empty aggregate or data in "
         "{x,'a b',&amp;,p>q,e-acute,'a\\nb',']]y'} (root an aggregate); per tree every rendering within <=k "
         "deviations from the canonical one (dimensions: per data leaf end-tag omitted / CDATA / both; per token "
         "gap one of '',' ','\\n','\\r\\n\\t  '); plan (N, max non-'x' leaves, k) = " + repr(plan) + "; each rendering is "
         "distinct text; non-trivial = at least one rendering deviation",
-        "terms": tally.counts["terms"],
+        "terms": tally.counts.get("terms", 0),
         "plan": [list(p) for p in plan],
         "exhaustive": True,
         "distinct_outcomes": len(tally.outcomes),
